@@ -55,6 +55,8 @@ def run_single(case):
         viol = {}
         if case.get('ext'):
             return obs, obs, {'C03': dagmon.monitor_ext(case, recs[0])}
+        if case.get('extdel') is not None:
+            return obs, obs, dagmon.monitor_extdel(case, recs[0])[0]
         if case.get('poison'):
             return obs, obs, {'C03': dagmon.monitor_poison(case, recs[0]), 'C02': dagmon.monitor_poison_c02(case, recs[0])}
         for r in recs:
@@ -100,6 +102,10 @@ def shrink(case, pid, budget=60):
             c = copy.deepcopy(cur); c['bust'] = 0; cands.append(c)
         if cur.get('sub'):
             c = copy.deepcopy(cur); del c['sub']; cands.append(c)
+        if cur.get('pk'):
+            c = copy.deepcopy(cur); del c['pk']; cands.append(c)
+            if cur['pk'] != 1:
+                c = copy.deepcopy(cur); c['pk'] = 1; cands.append(c)
         for c in cands:
             steps += 1
             if steps > budget:
